@@ -14,6 +14,7 @@ OBLIGATIONS = [
     (P + "no_crash_scgi", "SCGI: for all byte streams and segmentations no out-of-range index, no negative/huge resize, no strlen past the buffer"),
     (P + "no_crash_fcgi", "FastCGI: likewise (cache never read into when full, front() only on non-empty vectors, unknown-role body large enough, negative CONTENT_LENGTH never reaches resize); model recursion budgets suffice"),
     (P + "no_crash_http", "HTTP: likewise; header_.resize(size()-2) and bracket_counter_-- never wrap (parser invariant), with or without the 16 KiB cap firing"),
+    (P + "record_sizes_exact", "FastCGI record reader: rec_size = content_length + padding_length computed in the declared type of the variable (regenerated, both paths) never wraps for any header the wire can carry; narrowing the type breaks this and no_crash_fcgi"),
     (P + "pool_no_overflow", "string_pool page bookkeeping (page size, allocate_space conditions, which block clear() keeps: regenerated from private/string_map.h): for every sequence of allocations and clear()s no allocation is handed bytes outside its malloc block (D18 is the false case)"),
     (P + "cgi_layer_no_crash", "protocol independent layer (cgi_api.cpp / http_context.cpp / http_request.cpp callbacks regenerated as CStmt programs, interpreted with fall-through semantics): no callback goes on after handing the request on, none ends without handing it on, never two operations pending; the machine stops early only for multipart (C12)"),
     (P + "request_actions_ok", "every request's action list (early main, end-of-content, error page, completion handler, on_error, dispatch) has one of three shapes: application / error page / dropped"),
@@ -48,6 +49,24 @@ def gen_cases(c, scale):
         if len(d) > 1:
             k = rng.randrange(1, len(d))
             cases.append(Case(api, rng.choice(["hc", "rst"]), cut(d[:k], random_cuts(rng, k, rng.choice([0, 1, 2]))), tag="truncated"))
+    # FastCGI records whose content + padding reaches or exceeds 65536 (content 65500..65535, padding 1..255): well-formed
+    # (whole, truncated inside the record / inside the padding, followed by a second request on a kept connection) and with
+    # a wrong declared padding; the record reader's size arithmetic must not wrap
+    for i in range(5 * scale):
+        r, q, ck, d, (cc, pp) = fcgi_fullsize(rng, keep=(i % 2 == 0))
+        cases.append(Case("fastcgi", "hc", segmentations(rng, d, 1)[-1], tag="fullsize-record"))
+        cases.append(Case("fastcgi", "hc", [d], tag="fullsize-record"))
+        k = rng.choice([len(d) - 9, len(d) - 8 - pp // 2 - 8, len(d) - 20000, 70000])
+        if 0 < k < len(d):
+            cases.append(Case("fastcgi", rng.choice(["hc", "rst"]), cut(d[:k], random_cuts(rng, k, 2)), tag="fullsize-record-truncated"))
+        if i % 2 == 0:
+            r2 = gen_absreq(rng); r2.keep = False
+            enc2, _, _ = encode_all(r2, rng)
+            cases.append(Case("fastcgi", "hc", segmentations(rng, d + enc2["fastcgi"], 1)[-1], tag="fullsize-record-keepalive"))
+        # a lone STDIN-like record with maximal lengths and nothing behind it / garbage behind it
+        lone = fcgi_begin(1, 1, 0, 0) + fcgi_rec(FCGI_PARAMS, 1, fcgi_pairs([(b"CONTENT_LENGTH", b"65535"), (b"SCRIPT_NAME", b"/s")])) + fcgi_rec(FCGI_PARAMS, 1, b"")
+        lone += fcgi_rec(FCGI_STDIN, 1, b"x" * 65535, pad=0, plen=rng.choice([1, 36, 255])) + rand_bytes(rng, rng.choice([0, 7, 300]), bytes(range(256)))
+        cases.append(Case("fastcgi", "hc", segmentations(rng, lone, 1)[-1], tag="fullsize-record-lie"))
     # kept-alive connections: first request with one 1025..2040 byte variable, then ordinary / mutated requests
     for i in range(10 * scale):
         api = rng.choice(["http", "fastcgi"])
